@@ -249,6 +249,12 @@ class Codec:
                 assert silent, f"incomplete tag {m}"
                 return (None, skip_length, None)
             tag, value = toks
+            try:
+                int(tag)
+            except ValueError:
+                # more digits than int() converts (sys.set_int_max_str_digits)
+                assert silent, f"tag number too long {m[:40]}"
+                return (None, skip_length, None)
 
             if tag == FTag.CheckSum:
                 cheksum_base = self.SOH.join(msg[:-1])
